@@ -2,7 +2,7 @@
 array allocated inside the same call.  A buffer kept at module level (a `global`, a module-scope array, a default
 argument) is shared by all callers - in particular by the pool tasks, which run the `nogil` merge loops concurrently -
 and survives from one call to the next.  Used by C16 (R-C16-f) and C17 (R-C17-e)."""
-from .cyfront import tname, children, walk, functions
+from .cyfront import tname, children, walk, functions, cfunctions
 
 FRESH_CALLS = {"empty", "zeros", "ones", "full", "array", "concatenate", "arange", "empty_like", "zeros_like", "copy", "astype", "cumsum"}
 
@@ -24,9 +24,72 @@ def _is_fresh(n):
     return False
 
 
+def _call_name(n):
+    n = _strip(n)
+    if tname(n) in ("SimpleCallNode", "GeneralCallNode") and tname(n.function) == "NameNode":
+        return n.function.name
+    return None
+
+
+def helper_summaries(tree):
+    """name -> ('global', module-level name) | ('fresh',) | ('unknown',) for every function of the module: what the value a
+    helper RETURNS is a view of.  A helper that hands out a module-level array (a grow-on-demand workspace) shares it with
+    every caller."""
+    nodes = [(f.name, f.node) for f in functions(tree)] + cfunctions(tree)
+    out = {}
+    for name, node in nodes:
+        body = node.body
+        gl = set()
+        for g in walk(body):
+            if tname(g) == "GlobalNode":
+                gl.update(getattr(g, "names", []) or [])
+        assigned = {}
+        for x in walk(body):
+            if tname(x) == "SingleAssignmentNode" and tname(x.lhs) == "NameNode":
+                assigned.setdefault(x.lhs.name, []).append(x.rhs)
+        args = set()
+        for a in getattr(node, "args", None) or []:
+            nm = getattr(a, "name", None)
+            if nm is None:
+                d = getattr(a, "declarator", None)
+                while d is not None and not hasattr(d, "name"):
+                    d = getattr(d, "base", None)
+                nm = getattr(d, "name", None)
+            if nm:
+                args.add(str(nm))
+        kinds = set()
+        for r in walk(body):
+            if tname(r) != "ReturnStatNode" or r.value is None:
+                continue
+            v = _strip(r.value)
+            while tname(v) == "SliceIndexNode":
+                v = _strip(v.base)
+            if tname(v) == "NameNode":
+                if v.name in gl or (v.name not in assigned and v.name not in args):
+                    kinds.add(("global", v.name))
+                elif all(_is_fresh(x) for x in assigned.get(v.name, [])) and assigned.get(v.name):
+                    kinds.add(("fresh",))
+                else:
+                    kinds.add(("unknown",))
+            elif _is_fresh(v):
+                kinds.add(("fresh",))
+            else:
+                kinds.add(("unknown",))
+        g = [k for k in kinds if k[0] == "global"]
+        out[name] = g[0] if g else (("fresh",) if kinds == {("fresh",)} else ("unknown",))
+    return out
+
+
 def analyse(tree):
     """-> list of (status, where, construct, detail); status in PROVED / VIOLATED / UNDECIDED"""
     out = []
+    helpers = helper_summaries(tree)
+    # a `global` statement in a cdef helper is the same shared state, one call away
+    for name, node in cfunctions(tree):
+        for g in walk(node.body):
+            if tname(g) == "GlobalNode":
+                out.append(("VIOLATED", "set_operations:%s@%d" % (name, g.pos[1]), "cdef helper rebinds module-level name(s) %s" % sorted(getattr(g, "names", [])),
+                            "a `global` statement in a helper of the kernels: state shared by every caller and every pool thread, and kept between calls"))
     for f in functions(tree):
         body = f.node.body
         globals_ = [g for g in walk(body) if tname(g) == "GlobalNode"]
@@ -69,7 +132,14 @@ def analyse(tree):
                         why.append("%s is a view of the caller's argument %s" % (mv, nm))
                         continue
                     inner = assigns.get(nm, [])
-                    if inner and all(_is_fresh(r) for r in inner):
+                    via = [(_call_name(r), helpers.get(_call_name(r))) for r in inner if _call_name(r) in helpers]
+                    shared = [(h, k[1]) for h, k in via if k and k[0] == "global"]
+                    if shared:
+                        verdict = "VIOLATED"
+                        why.append("%s = view of %s, obtained from %s(), which hands out the module-level object %s: every caller (and every pool thread, the merge loops run without the GIL) fills the same buffer"
+                                   % (mv, nm, shared[0][0], shared[0][1]))
+                        continue
+                    if inner and all(_is_fresh(r) or (helpers.get(_call_name(r)) == ("fresh",)) for r in inner):
                         why.append("%s = view of %s, allocated in this call" % (mv, nm))
                     else:
                         bad = [r for r in inner if not _is_fresh(r)]
@@ -86,4 +156,61 @@ def analyse(tree):
                     verdict = "UNDECIDED"
                     why.append("origin of %s not recognised (%s)" % (mv, tname(src)))
             out.append((verdict, "%s@%d" % (where, line), cons, "; ".join(why)))
+    return out
+
+
+def aliased_views(tree):
+    """Typed memoryviews of one function that are views of the SAME local array, at least one of them written: a store
+    through one changes what the other reads, which no per-view bounds argument accounts for (cursor tables taken as
+    offsets[:-1] / offsets[1:] of one prefix-sum array: advancing cursor i+1 raises limit i).
+    -> [(status, where, construct, detail)]; nothing is reported for functions without such a pair."""
+    out = []
+    for f in functions(tree):
+        body = f.node.body
+        views = {}   # memoryview local -> (base name, slice text, line)
+        for x in walk(body):
+            if tname(x) == "SingleAssignmentNode" and tname(x.lhs) == "NameNode" and str(getattr(x.lhs, "type", "")).endswith(("[:]", "[::1]")):
+                src = _strip(x.rhs)
+                sl = None
+                if tname(src) == "SliceIndexNode":
+                    def txt(n):
+                        n = _strip(n) if n is not None else None
+                        if n is None:
+                            return ""
+                        if tname(n) == "IntNode":
+                            return str(n.value)
+                        if tname(n) == "UnaryMinusNode" and tname(_strip(n.operand)) == "IntNode":
+                            return "-" + str(_strip(n.operand).value)
+                        return "?"
+                    sl = "[%s:%s]" % (txt(src.start), txt(src.stop))
+                    src = _strip(src.base)
+                if tname(src) == "NameNode":
+                    views[x.lhs.name] = (src.name, sl or "", x.pos[1])
+        written = set()
+        for x in walk(body):
+            if tname(x) in ("SingleAssignmentNode", "InPlaceAssignmentNode") and tname(x.lhs) == "MemoryViewIndexNode" and tname(x.lhs.base) == "NameNode":
+                written.add(x.lhs.base.name)
+        by_base = {}
+        for v, (b, sl, ln) in views.items():
+            by_base.setdefault(b, []).append((v, sl, ln))
+        for b, vs in sorted(by_base.items()):
+            if len(vs) < 2 or not any(v in written for v, _, _ in vs):
+                continue
+            w = [v for v, _, _ in vs if v in written]
+            desc = ", ".join("%s = %s%s" % (v, b, sl) for v, sl, _ in sorted(vs))
+
+            def open_ended(sl):
+                """[c:] / [c:-k] / [:] / whole array: start a small constant, stop = len - k: any two such slices share
+                elements once the array is long enough"""
+                if sl == "":
+                    return True
+                a, _, e = sl[1:-1].partition(":")
+                return (a == "" or a.isdigit()) and (e == "" or (e.startswith("-") and e[1:].isdigit()))
+            if not all(open_ended(sl) for _, sl, _ in vs):
+                out.append(("UNDECIDED", "set_operations:%s@%d" % (f.name, min(ln for _, _, ln in vs)), "memoryviews over one array: %s" % desc,
+                            "views of the same array `%s`, %s written: whether the slices overlap is not decided (non-constant bounds)" % (b, ", ".join(sorted(w)))))
+                continue
+            out.append(("VIOLATED", "set_operations:%s@%d" % (f.name, min(ln for _, _, ln in vs)), "memoryviews over one array: %s" % desc,
+                        "%s is written through while another view of the same array `%s` is read: the slices overlap (for two or more elements), so a store changes the other view's elements - "
+                        "bounds taken from it (limits, lengths) move while the loop runs" % (", ".join(sorted(w)), b)))
     return out
